@@ -1933,8 +1933,9 @@ class UTPM(Ring, RawAlgorithmsMixIn):
         x = numpy.asarray(x)
 
         if dtype is None:
-            # try to infer the dtype from x
-            dtype= x.dtype
+            # try to infer the dtype from x and v (a complex direction at a real point,
+            # a float64 direction at a float32 point)
+            dtype= numpy.result_type(x.dtype, numpy.asarray(v).dtype)
 
             if numpy.issubdtype(dtype, numpy.integer) or dtype==bool:
                 dtype=float
@@ -1970,7 +1971,7 @@ class UTPM(Ring, RawAlgorithmsMixIn):
         d = int(d)
         Gamma, rays = exint.generate_Gamma_and_rays(N,d)
 
-        data = numpy.zeros(numpy.hstack([d+1,rays.shape]))
+        data = numpy.zeros(numpy.hstack([d+1,rays.shape]), dtype=numpy.result_type(float, numpy.asarray(x).dtype))
         data[0] = x
         data[1] = rays
         return cls(data)
@@ -2085,8 +2086,9 @@ class UTPM(Ring, RawAlgorithmsMixIn):
                     'non vector inputs are not implemented yet')
 
         if dtype is None:
-            # try to infer the dtype from x
-            dtype= x.dtype
+            # try to infer the dtype from x and v (a complex direction at a real point,
+            # a float64 direction at a float32 point)
+            dtype= numpy.result_type(x.dtype, numpy.asarray(v).dtype)
 
             if numpy.issubdtype(dtype, numpy.integer) or dtype==bool:
                 dtype=float
@@ -2109,7 +2111,7 @@ class UTPM(Ring, RawAlgorithmsMixIn):
     def extract_hess_vec(cls, N, x):
         """ extracts the Hessian-vector product from a UTPM instance
         """
-        Hv = numpy.zeros(N)
+        Hv = numpy.zeros(N, dtype=x.data.dtype)
         for n in range(N):
             Hv[n] = -x.data[2, n] + x.data[2, n+N] - x.data[2, 2*N]
         return Hv
